@@ -772,6 +772,40 @@ pub fn suite_tok(ctx: &mut Ctx) {
         ctx.count("tok.inputs.random");
         tok_input(ctx, &text);
     }
+    // EVERY scalar value between two letters through the word, line and char tokenizers, `str` and `[u8]` (implementation
+    // only, exhaustive: 1 112 064 code points): the word tokenizers split exactly at `char::is_whitespace`, the line
+    // tokenizers only at LF / CR, the char tokenizers give one token per scalar value, and both modes agree
+    for block in 0..0x110u32 {
+        if !ctx.take() {
+            continue;
+        }
+        for cp in block * 0x1000..(block + 1) * 0x1000 {
+            let c = match char::from_u32(cp) {
+                Some(c) => c,
+                None => continue,
+            };
+            let t = format!("a{}b", c);
+            let want_words: Vec<&str> = if c.is_whitespace() { vec!["a", &t[1..1 + c.len_utf8()], "b"] } else { vec![&t[..]] };
+            let want_lines: Vec<&str> = if c == '\n' || c == '\r' { vec![&t[..1 + c.len_utf8()], "b"] } else { vec![&t[..]] };
+            let want_chars: Vec<&str> = vec!["a", &t[1..1 + c.len_utf8()], "b"];
+            let sw = t.as_str().tokenize_words();
+            let bw: Vec<&[u8]> = t.as_bytes().tokenize_words();
+            let sl = t.as_str().tokenize_lines();
+            let bl: Vec<&[u8]> = t.as_bytes().tokenize_lines();
+            let sc = t.as_str().tokenize_chars();
+            let bc: Vec<&[u8]> = t.as_bytes().tokenize_chars();
+            let same = |b: &[&[u8]], w: &[&str]| b.len() == w.len() && b.iter().zip(w).all(|(x, y)| *x == y.as_bytes());
+            if sw != want_words || !same(&bw, &want_words) || sl != want_lines || !same(&bl, &want_lines) || sc != want_chars || !same(&bc, &want_chars) {
+                let what = if sw != want_words { "str words" } else if !same(&bw, &want_words) { "[u8] words" } else if sl != want_lines { "str lines" } else if !same(&bl, &want_lines) { "[u8] lines" } else if sc != want_chars { "str chars" } else { "[u8] chars" };
+                let req = format!("tok {} {} | {}", what.split(' ').nth(1).unwrap(), if what.starts_with("str") { "str" } else { "bytes" }, hex(t.as_bytes()));
+                ctx.violation("C06", &req, format!("U+{:04X} between two letters: the {} tokenizer does not split as documented (is_whitespace = {})", cp, what, c.is_whitespace()));
+                if what.ends_with("words") || what.ends_with("lines") || what.ends_with("chars") {
+                    ctx.violation("C20", &req, format!("U+{:04X}: str and [u8] tokenizers can disagree here", cp));
+                }
+            }
+        }
+        ctx.add("tok.scalar_values_through_tokenizers", 0x1000);
+    }
     // char::is_whitespace
     let chunks: Vec<(u32, u32)> = match ctx.tier {
         Tier::Thorough => (0..0x110u32).map(|k| (k * 4096, (k + 1) * 4096)).collect(),
